@@ -327,7 +327,7 @@ class Decl:
         self.kvs = KV_TABLES
         self.inits = {}
         self.kinds = {}
-        shape = rng.choice(["flat", "flat", "sub", "sub", "nested"]) if rich else "flat"
+        shape = rng.choice(["flat", "flat", "sub", "sub", "nested", "twin"]) if rich else "flat"
         self.shape = shape
         self.ops += [("kv", 0), ("kv", 1)]
         if shape == "nested":
@@ -341,6 +341,8 @@ class Decl:
                 self.add_random(1, rng.randrange(0, 2))
         self.ops.append(("new", 0))
         self.add_random(0, rng.randrange(1, 6))
+        if shape == "twin":
+            self.twin(0, 1)
         if shape in ("sub", "nested"):
             self.sub(0, 1, rng.choice([b"pre", b"Sub", b"a", b"Section"]))          # "Section" is as long as "Options"
             self.add_random(0, rng.randrange(0, 3))
@@ -375,11 +377,41 @@ class Decl:
                 name = rand_name(rng, self.used_nm[o])
             self.add_typed(o, ty, ch, name)
 
-    def add_typed(self, o, ty, ch, name, share=True, init=None):
+    def twin(self, o, t):
+        """a second options object t declared on the variables of object o (not included in it): its own names and short
+        characters, its own defaults (the last declaration decides what the variable holds), another order, now and then an
+        option missing or of a type of its own.  The library allows it: every object only keeps the addresses."""
+        rng = self.rng
+        self.ops.append(("new", t))
+        src = [it for it in self.objs[o] if it.ty not in ("ini", "json", "cb")]
+        rng.shuffle(src)
+        for it in src:
+            if rng.random() < 0.15:
+                continue
+            ch = 0
+            if rng.random() < 0.6:
+                pool = [c for c in CHARS if c not in self.used_ch[t] and bytes([c]).swapcase()[0] not in self.used_ch[t]]
+                ch = rng.choice(pool)
+                self.used_ch[t].add(ch)
+            name = rand_name(rng, self.used_nm[t]) if (not ch or rng.random() < 0.7) else None
+            if it.name is not None and rng.random() < 0.4 and it.name.lower() not in self.used_nm[t] and b":" not in it.name:
+                name = it.name                       # the same name in both objects
+                self.used_nm[t].add(name.lower())
+            init = None
+            if it.ty == "kvo":
+                key = rng.choice([k for k, v in self.kvs[it.kv].items() if v is not None])          # the same table, a default of its own
+                init = ("s" + hx(key), self.kvs[it.kv][key])
+            self.add_typed(t, it.ty, ch, name, share=False, var=it.var, init=init)
+        if rng.random() < 0.5:
+            self.add_random(t, 1)
+
+    def add_typed(self, o, ty, ch, name, share=True, init=None, var=None):
         rng = self.rng
         # an earlier option of the same type in the same object may share its variable
         same = [it for it in self.objs[o] if it.ty == ty and ty in ("bool", "int", "size", "dbl")]
-        if share and same and rng.random() < 0.15:
+        if var is not None:
+            pass
+        elif share and same and rng.random() < 0.15:
             var = rng.choice(same).var
             init = "keep"
         else:
@@ -772,13 +804,41 @@ def hist_from_json(r):
     return h
 
 
-def roundtrip(h, rng, fname):
-    """save base object 0 -> load into the fresh copy 4 -> save again"""
-    h.op("save 0 %s" % hx(fname))
-    h.op("load 4 %s" % hx(fname))
-    h.op("loadargs 4 %s" % hx(fname))
-    h.op("save 4 %s" % hx(fname + b".2"), ("roundtrip", len(h.lines) - 3))
+def roundtrip(h, rng, fname, o=0):
+    """save base object o -> load into its fresh copy o + 4 -> save again"""
+    h.op("save %d %s" % (o, hx(fname)))
+    h.op("load %d %s" % (o + 4, hx(fname)))
+    h.op("loadargs %d %s" % (o + 4, hx(fname)))
+    h.op("save %d %s" % (o + 4, hx(fname + b".2")), ("roundtrip", len(h.lines) - 3, o))
     h.tags.add("roundtrip")
+
+
+def assign_token(rng, it, decl, avoid=None):
+    """a value the application may assign to the variable of item `it` itself (inside the documented range of the type)"""
+    ty = it.ty
+    if ty in ("sw", "cb"):
+        return "i" + hz(rng.choice([0, 1, 2, 7, 12]))
+    if ty == "bool":
+        return "i" + hz(rng.choice([0, 1, 1, 5, -1]))
+    if ty == "int":
+        return "i" + hz(rng.choice([INT_MIN, INT_MAX, -5, 0, 42, 99]))
+    if ty == "size":
+        return "z%x" % rng.choice([0, 1, 12345, 1 << 32, LONG_MAX])
+    if ty == "dbl":
+        return "d%x" % struct.unpack("<Q", struct.pack("<d", rng.choice([0.0, 1.5, -2.25, 1e-310, 3.25e7, 99.0])))[0]
+    if ty == "kvo":
+        return "i" + hz(rng.choice([v for v in decl.kvs[it.kv].values() if v is not None] + [99]))
+    if ty == "str":
+        v = None if rng.random() < 0.1 else rng.choice([b"override", b"foreign value", rand_str(rng, True)])
+        return "s" + hx(v)
+    return None
+
+
+def assign(h, rng, it, decl, tok=None):
+    tok = tok or assign_token(rng, it, decl)
+    if tok is not None:
+        h.op("assign %d %s" % (it.var, tok))
+        h.tags.add("assign")
 
 
 def gen_history(rng, hid, quick):
@@ -787,21 +847,29 @@ def gen_history(rng, hid, quick):
     items0 = decl.objs[0]
     nact = rng.randrange(2, 9)
     files = []
+    memo = []            # successful inputs that can be given again: ("parse", o, argv) / ("load", o, file, expectation)
+    twin = decl.shape == "twin"
     for _ in range(nact):
         k = rng.random()
         if k < 0.38:
-            o = rng.choice([0, 0, 0, 1, 2]) if decl.shape == "nested" else (rng.choice([0, 0, 1]) if decl.shape == "sub" else 0)
+            o = rng.choice([0, 0, 0, 1, 2]) if decl.shape == "nested" else (rng.choice([0, 0, 1]) if decl.shape in ("sub", "twin") else 0)
             valid = rng.random() < 0.6
-            h.parse(o, gen_argv(rng, decl.objs[o], decl, valid))
+            argv = gen_argv(rng, decl.objs[o], decl, valid)
+            h.parse(o, argv)
             h.tags.add("parse-valid" if valid else "parse-invalid")
+            if valid:
+                memo.append(("parse", o, argv))
         elif k < 0.5:
             valid = rng.random() < 0.7
-            text, exp = gen_ini(rng, items0, decl, valid)
+            o = 1 if twin and rng.random() < 0.4 else 0
+            text, exp = gen_ini(rng, decl.objs[o], decl, valid)
             f = b"gen%d.ini" % len(files)
             files.append(f)
             h.op("file %s %s" % (hx(f), hx(text)))
-            h.op("load 0 %s" % hx(f), ("load", 0, exp))
+            h.op("load %d %s" % (o, hx(f)), ("load", o, exp))
             h.tags.add("load-generated")
+            if exp != "error":
+                memo.append(("load", o, f, exp))
         elif k < 0.62:
             text, _ = gen_ini(rng, items0, decl, rng.random() < 0.5)
             if rng.random() < 0.4:
@@ -824,29 +892,40 @@ def gen_history(rng, hid, quick):
             h.op("summary 0")
         elif k < 0.76:
             h.op("dirty %d" % rng.choice([43, 45, 58, 63, 97, 255, 0]))          # the next parse starts from a stack full of this byte
-        elif k < 0.80:
-            vs = [it for it in items0 if it.ty in ("int", "size")]
-            if vs:
-                it = rng.choice(vs)
-                h.op("seti %d %s" % (it.var, hz(rng.choice([0, 1, 12345, INT_MAX]) if it.ty == "size" else rng.choice([INT_MIN, INT_MAX, -5, 0]))))
+        elif k < 0.84:
+            # the application assigns one or two of its variables itself; then (mostly) an input that was accepted before is given
+            # again, through the same object: the variables must hold what that text denotes, whatever they held in between
+            vs = [it for o_ in (0, 1) for it in decl.objs[o_] if it.ty not in ("ini", "json")]
+            for _k in range(rng.randrange(1, 3)):
+                if vs:
+                    assign(h, rng, rng.choice(vs), decl)
+            if memo and rng.random() < 0.7:
+                m = rng.choice(memo)
+                if m[0] == "parse":
+                    h.parse(m[1], list(m[2]))
+                else:
+                    h.op("load %d %s" % (m[1], hx(m[2])), ("load", m[1], m[3]))
+                h.tags.add("input-given-again")
         else:
             # successful parse followed by the save / load / save round trip
-            argv = gen_argv(rng, items0, decl, True, nuse=rng.randrange(0, 6))
+            o = 1 if twin and rng.random() < 0.4 else 0
+            argv = gen_argv(rng, decl.objs[o], decl, True, nuse=rng.randrange(0, 6))
             if rng.random() < 0.25:
                 # unsafe strings / arguments on purpose
-                ss = [it for it in items0 if it.ty == "str"]
+                ss = [it for it in decl.objs[o] if it.ty == "str"]
                 if ss and rng.random() < 0.6:
                     it = rng.choice(ss)
                     argv[1:1] = [(b"-" + bytes([it.ch])) if it.ch else (b"--" + it.name), rand_str(rng, False)]
                     argv = [w for w in argv if b"\0" not in w]
                 else:
                     argv.append(rand_str(rng, False) or b"x")
-            h.parse(0, argv)
+            h.parse(o, argv)
+            memo.append(("parse", o, argv))
             f = b"f%d.ini" % len(files)
             files.append(f)
-            roundtrip(h, rng, f)
+            roundtrip(h, rng, f, o)
             if rng.random() < 0.3:
-                h.op("load 0 %s" % hx(mutate_name(rng, f)))
+                h.op("load %d %s" % (o, hx(mutate_name(rng, f))))
     if "roundtrip" not in h.tags and rng.random() < 0.7:
         h.parse(0, gen_argv(rng, items0, decl, True, nuse=rng.randrange(0, 5)))
         roundtrip(h, rng, b"last.ini")
@@ -1482,6 +1561,136 @@ def dict_histories(rng, hid0, quick):
     return out
 
 
+# ---- the application's variables between two calls; two options objects on the same variables ----
+# sc_options.h: the variables belong to the application, the library keeps their addresses.  A parse / load that succeeds stores the
+# value the text denotes - whatever the variable holds at that moment and whatever the library remembers of earlier calls (the copy
+# of a string it keeps for freeing it, the key text of a key-value option).  Pattern: a value T goes in through the library
+# (default, command line, file, parent or sub-options object), the variable is changed WITHOUT that object (op `assign`, or a second
+# object declared on the same variable), then the same text T is given again.
+STD_ITEMS = [("int", ord("i"), b"int", ("i3", 3)), ("sw", ord("x"), b"sw", None), ("sw", ord("q"), None, None),
+             ("str", ord("s"), b"str", ("s" + hx(b"alpha"), b"alpha")), ("size", ord("z"), b"size", ("i7", 7)), ("bool", ord("b"), b"bool", ("i0", 0)),
+             ("kvo", ord("k"), b"choice", ("s" + hx(b"ab"), 5)), ("dbl", ord("d"), b"dbl", ("d%x" % struct.unpack("<Q", struct.pack("<d", 0.5))[0], ("d", 0)))]
+#                  variable: 0 int, 1 sw, 2 sw, 3 str, 4 size, 5 bool, 6 kvo, 7 dbl
+SAME_TEXTS = [   # (variable, words that set it to T, foreign values the application assigns)
+    (3, [b"-s", b"alpha"], ["s" + hx(b"override"), "s-", "s" + hx(b"alpha"), "s" + hx(b"")]),
+    (3, [b"--str=two words"], ["s" + hx(b"two"), "s" + hx(b"two words and more")]),
+    (0, [b"-i", b"3"], ["i63", "i0"]), (0, [b"--int=-2147483648"], ["i7fffffff"]),
+    (4, [b"-z", b"7"], ["z0", "z7fffffffffffffff"]), (5, [b"-b1"], ["i0"]), (5, [b"--bool=no"], ["i1", "i5"]), (5, [b"-b"], ["i0"]),
+    (6, [b"-k", b"cd"], ["i5", "ib", "i63"]), (6, [b"--choice=ab"], ["i-7"]),
+    (7, [b"-d", b"0.5"], ["d%x" % struct.unpack("<Q", struct.pack("<d", 2.5))[0], "d0"]),
+    (1, [b"-x"], ["i5", "i0", "i-3"]), (1, [b"-xxx"], ["i7"])]
+
+
+def assign_histories(rng, hid0):
+    out, hid = [], hid0
+
+    def std_decl(shape="flat"):
+        d = blank_decl(rng, shape)
+        d.ops.append(("new", 0))
+        for (ty, ch, name, init) in STD_ITEMS:
+            d.add_typed(0, ty, ch, name, share=False, init=init)
+        return d
+
+    def H(d):
+        nonlocal hid
+        h = History(hid, d)
+        hid += 1
+        out.append(h)
+        h.tags.add("aimed-assign")
+        return h
+
+    ini_of = {0: b"int = %s", 3: b"str = %s", 4: b"size = %s", 5: b"bool = %s", 6: b"choice = %s", 7: b"dbl = %s", 1: b"sw = %s"}
+    for (var, words, foreign) in SAME_TEXTS:
+        # the same command line before and after the application's assignment; then saved and loaded
+        for tok in foreign:
+            h = H(std_decl())
+            argv = [b"prog"] + words + [b"rest"]
+            h.parse(0, list(argv)); h.op("assign %d %s" % (var, tok)); h.parse(0, list(argv))
+            if not (var in (1, 2) and tok.startswith("i-")):
+                roundtrip(h, rng, b"as.ini")
+            h.op("assign %d %s" % (var, tok)); h.parse(0, list(argv)); h.parse(0, [b"prog"] + words)
+            h.end()
+    # the declared default is T: nothing parsed yet, the variable assigned, then T on the command line and in a file
+    defaults = [(3, "s" + hx(b"zz"), [b"--str=alpha"], b"[Options]\nstr = alpha\n", {3: b"alpha"}), (0, "i-5", [b"-i3"], b"[Options]\nint = 3\n", {0: 3}),
+                (4, "z9", [b"--size", b"7"], b"[Options]\n-z = 7\n", {4: 7}), (5, "i1", [b"--bool=0"], b"[Options]\nbool = false\n", {5: 0}),
+                (6, "i-7", [b"-kab"], b"[Options]\nchoice = ab\n", {6: 5}), (7, "d0", [b"--dbl=0.5"], b"[Options]\ndbl = 0.5\n", {7: ("d", libc_strtod(b"0.5")[0])})]
+    for (var, tok, words, text, exp) in defaults:
+        h = H(std_decl())
+        h.op("assign %d %s" % (var, tok)); h.parse(0, [b"prog"] + words); roundtrip(h, rng, b"df.ini")
+        h.op("file %s %s" % (hx(b"t.ini"), hx(text)))
+        h.op("assign %d %s" % (var, tok)); h.op("load 0 %s" % hx(b"t.ini"), ("load", 0, exp))
+        h.op("assign %d %s" % (var, tok)); h.op("load 0 %s" % hx(b"t.ini"), ("load", 0, exp))
+        h.op("assign %d %s" % (var, tok)); h.parse(0, [b"prog"] + words)
+        h.end()
+    # T through a file, the assignment, the same file again; T through the file, then the same T on the command line
+    h = H(std_decl())
+    text = b"[Options]\nint = 11\nstr = from the file\nsize = 12\nbool = yes\nchoice = Mixed\ndbl = 2.5\nsw = 3\n"
+    exp = {0: 11, 3: b"from the file", 4: 12, 5: 1, 6: 11, 7: ("d", libc_strtod(b"2.5")[0]), 1: 3}
+    h.op("file %s %s" % (hx(b"all.ini"), hx(text)))
+    h.op("load 0 %s" % hx(b"all.ini"), ("load", 0, exp))
+    for (var, tok) in ((0, "i0"), (3, "s" + hx(b"not the file")), (4, "z0"), (5, "i0"), (6, "i5"), (7, "d0"), (1, "i0")):
+        h.op("assign %d %s" % (var, tok))
+    h.op("load 0 %s" % hx(b"all.ini"), ("load", 0, exp))
+    h.op("assign 3 s-"); h.op("assign 0 i1")
+    h.parse(0, [b"prog", b"--str=from the file", b"--int=11"]); roundtrip(h, rng, b"ff.ini")
+    h.op("assign 3 %s" % ("s" + hx(b"x"))); h.op("load 0 %s" % hx(b"ff.ini"), ("load", 0, {3: b"from the file", 0: 11}))
+    h.end()
+    # parent and sub-options object share the string holder and the variables: T through one, assignment, T through the other
+    d = blank_decl(rng, "sub")
+    d.ops.append(("new", 1))
+    for (ty, ch, name, init) in STD_ITEMS:
+        d.add_typed(1, ty, ch, name, share=False, init=init)
+    d.ops.append(("new", 0))
+    d.add_typed(0, "int", ord("n"), b"own", share=False, init=("i0", 0))
+    d.sub(0, 1, b"pre")
+    d.sub(0, 1, b"Second")
+    for (var, long_, val, tok) in ((3, b"str", b"alpha", "s" + hx(b"override")), (3, b"str", b"beta", "s-"), (0, b"int", b"3", "i9"), (6, b"choice", b"cd", "i5"), (7, b"dbl", b"0.5", "d0")):
+        h = H(d)
+        h.parse(0, [b"prog", b"--pre:" + long_ + b"=" + val]); h.op("assign %d %s" % (var, tok)); h.parse(1, [b"prog", b"--" + long_, val])
+        h.op("assign %d %s" % (var, tok)); h.parse(0, [b"prog", b"--Second:" + long_, val]); h.op("assign %d %s" % (var, tok))
+        h.parse(0, [b"prog", b"--pre:" + long_ + b"=" + val])
+        if var != 6:
+            roundtrip(h, rng, b"ps.ini")            # key-value: each copy has its own key text (F-C17h, recorded)
+        h.op("assign %d %s" % (var, tok)); h.op("load 0 %s" % hx(b"ps.ini")) if var != 6 else None
+        h.end()
+    # two objects declared on the same variables, used alternately
+    for rep_ in range(6):
+        d = std_decl("twin")
+        d.twin(0, 1)
+        by_var = {}
+        for it in d.objs[1]:
+            by_var.setdefault(it.var, it)
+
+        def word(it, val):
+            if it.name is not None:
+                return [b"--" + it.name + (b"=" + val if val is not None else b"")] if it.hasarg != 1 or rng.random() < 0.5 else [b"--" + it.name, val]
+            return [b"-" + bytes([it.ch]) + (val or b"")]
+        h = H(d)
+        h.tags.add("aimed-twin")
+        seq = [(3, b"alpha", b"beta"), (0, b"3", b"44"), (4, b"7", b"8"), (7, b"0.5", b"1.25"), (6, b"cd", b"ab"), (5, b"1", b"0")]
+        rng.shuffle(seq)
+        for (var, T, U) in seq:
+            it0 = [it for it in d.objs[0] if it.var == var][0]
+            it1 = by_var.get(var)
+            if it1 is None or it1.ty != it0.ty:
+                continue
+            h.parse(0, [b"prog"] + word(it0, T))
+            h.parse(1, [b"prog"] + word(it1, U))
+            h.parse(0, [b"prog"] + word(it0, T))              # the same text through the first object again
+            if rng.random() < 0.5:
+                roundtrip(h, rng, b"tw%d.ini" % var, rng.choice([0, 1]))
+            h.parse(1, [b"prog"] + word(it1, U))
+            h.parse(1, [b"prog"] + word(it1, T))
+            h.parse(0, [b"prog"] + word(it0, T))
+        if 1 in by_var and by_var[1].ty == "sw":
+            sw0 = [it for it in d.objs[0] if it.var == 1][0]
+            h.parse(0, [b"prog", b"-x"]); h.parse(1, [b"prog"] + word(by_var[1], None) * 2); h.parse(0, [b"prog", b"--sw"])
+        h.parse(0, [b"prog"]); roundtrip(h, rng, b"twa.ini", 0)
+        h.parse(1, [b"prog"]); roundtrip(h, rng, b"twb.ini", 1)
+        h.end()
+    return out
+
+
 def dict_entries(text):
     """number of dictionary entries of an ini file in ordinary layout: distinct lower-case section names + distinct section:key"""
     sec, seen = b"", set()
@@ -1721,7 +1930,8 @@ def oracle(ctx, h, impl):
             if r1 != 0:
                 continue            # nothing was saved (precondition not met)
             judged += 1
-            items = decl.objs[0]
+            ro = chk[3] if len(chk) > 3 else 0
+            items = decl.objs[ro]
             # which ini format limits does this state touch?
             unsafe = None
             for it in items:
@@ -1733,7 +1943,7 @@ def oracle(ctx, h, impl):
             # the arguments themselves are known from the save text only when they are safe; take them from the parse line
             last_args = None
             for (ci, ck, *cd) in h.checks:
-                if ck == "parse" and ci < i_save and cd[0] == 0:
+                if ck == "parse" and ci < i_save and cd[0] == ro:
                     last_args = ref_getopt(cd[1], items)[1]
             if last_args:
                 for n, a in enumerate(last_args):
@@ -1743,11 +1953,17 @@ def oracle(ctx, h, impl):
                 fails.append("load of the saved file returned %s" % r2)
             if r3 != 0:
                 fails.append("load_args of the saved file returned %s" % r3)
+            nullstr = None
             if not fails:
                 for it in items:
                     if it.ty not in FILE_TYPES:
                         continue
                     a, b = vars1.get(it.var), vars4.get(it.var + decl.vo)
+                    if it.ty == "str" and a is None and b is not None and b == vars1.get(it.var + decl.vo):
+                        # F-C17n: the variable holds NULL (assigned by the application), an unset string is not written (5918853), the load
+                        # left the fresh variable exactly as it was.  The theorem speaks about written items only; recorded finding.
+                        nullstr = nullstr or (it, b)
+                        continue
                     if it.ty == "dbl":
                         same = dbl_close(a[1], b[1])
                     elif it.ty == "bool":
@@ -1763,9 +1979,12 @@ def oracle(ctx, h, impl):
                     # key-value choices are observable only through the saved text
                     t1 = [l for l in f1.split(b"\n") if not l.startswith(b"[")]
                     t2 = [l for l in f2.split(b"\n") if not l.startswith(b"[")]
-                    if not any(it.ty == "dbl" for it in items) and f1 != f2:
+                    if not any(it.ty == "dbl" for it in items) and f1 != f2 and not nullstr:
                         fails.append("second save differs from the first")
             guard = getattr(h, "guards", {}).get(i_save)
+            if nullstr and not fails:
+                viol("null-string:unset-string-is-not-saved", "save/load round trip: str option %s holds NULL, nothing is written for it, the fresh object keeps %r"
+                     % ((nullstr[0].name or bytes([nullstr[0].ch])).decode("latin1"), nullstr[1]), dict(saved=hx(f1)))
             note = ""
             if fails and "large-roundtrip" in h.tags:
                 note = " [the saved file has %d dictionary entries: sections + keys + arguments]" % dict_entries(f1)
@@ -1877,6 +2096,7 @@ def run(ctx):
     aimed = aimed_histories(rng, 1)
     aimed += large_histories(rng, 1 + len(aimed), ctx.quick)
     aimed += dict_histories(rng, 1 + len(aimed), ctx.quick)
+    aimed += assign_histories(rng, 1 + len(aimed))
     hs += aimed
     nrand = 400 if ctx.quick else 12000
     hid = 1 + len(aimed)
@@ -2018,6 +2238,9 @@ def run(ctx):
                        "undeclared keys, every declared key looked up, loaded into both copies; histories on iniparser's dictionary itself (dictionary_new with "
                        "several initial sizes, set / replace / unset / get of present and absent keys incl. keys with equal hash, filled to 126..130, 254..258, 513, "
                        "1025 entries, blocks removed and refilled, every slot printed and every key looked up at each peak); "
+                       "the application's own assignments to option variables between calls (op `assign`, every type) followed by an input that was accepted before, "
+                       "and a second options object declared on the same variables (shape `twin`) used alternately for parse / load / save, in the random histories and "
+                       "in 43 aimed ones (same text before and after the assignment through command line, default, file, parent / sub-options object, twin object); "
                        "every output line (return value, all variables, saved text; n, size and the slots of the dictionary) is compared with the model; a history is non-trivial if "
                        "it contains at least one operation after the declarations; distinct = distinct history text")
     ctx.cov["exhaustive"] = False
@@ -2029,7 +2252,8 @@ def run(ctx):
     ctx.notes["roundtrip_guard_true_false"] = nguard
     for h in hs[:: max(1, len(hs) // 5)][:5]:
         ctx.sample({"history": h.hid, "tags": sorted(h.tags), "ops": [l[:80] for l in h.lines[-6:-1]]})
-    ctx.cov["trusted_base"] = ["T1 (group DictC17): mem_double, the growth step / search loops / insertion loop / stores of dictionary_set, dictionary_get, the search and removal of dictionary_unset and the sizes of dictionary_new are proved EQUAL to Gen/DictC17.v, regenerated from iniparser/dictionary.c on every run (d->key / d->val / d->hash are read through functions of the slot index, strcmp (key, d->key[i]) and xstrdup are function parameters, the branch of a found key in dictionary_set is read as `break`, `if (++i == n)` as `++i; if (i == n)`; dictionary_hash is an arbitrary function of the key in every theorem and is not compared)",
+    ctx.cov["trusted_base"] = ["T1: sc_options_string_set / sc_options_string_get (what they free, duplicate, compare and store) are proved EQUAL to the model's string_set / string_get (the variable is written unconditionally; get returns the text of the variable): holder_set / holder_get of Gen/OptionsC17.v (SC_FREE / SC_STRDUP are effects, strcmp symbolic, `X = Y = e` read as `Y = e; X = Y`)",
+                               "T1 (group DictC17): mem_double, the growth step / search loops / insertion loop / stores of dictionary_set, dictionary_get, the search and removal of dictionary_unset and the sizes of dictionary_new are proved EQUAL to Gen/DictC17.v, regenerated from iniparser/dictionary.c on every run (d->key / d->val / d->hash are read through functions of the slot index, strcmp (key, d->key[i]) and xstrdup are function parameters, the branch of a found key in dictionary_set is read as `break`, `if (++i == n)` as `++i; if (i == n)`; dictionary_hash is an arbitrary function of the key in every theorem and is not compared)",
                                "T1: the range rules of the int / size_t / double conversions (.ini reader and command line), the boolean spellings, the switch increment, the getopt reset, the colon test of the loader and the heading / prefix decisions of sc_options_save are proved EQUAL to Gen/OptionsC17.v, regenerated from the working tree on every run (tools/c2g + tools/c2g/slicelib.py + clang-14 JSON AST trusted; strtol / strtod / strspn / strncmp / strrchr results and HUGE_VAL are symbolic parameters)",
                                "getopt_long of libc is an oracle: model and library consume the recorded event stream; GetoptModel.v is validated against it",
                                "strtod / \"%.16g\" of libc are oracle tables (Section variables in the theorems)",
